@@ -120,6 +120,41 @@ var cfgC06 = reg(PropCfg{
 	Assume:     []string{"messages inside a governance proposal are not counted (they do not execute in the submitting transaction)", "payer funds = bank balance + locked eFUND in the mempool (check) state before the CheckTx"},
 })
 
+func streamProfile() *Profile {
+	return &Profile{Weights: map[string]int{StrCreate: 12, StrClaim: 26, StrTopUp: 10, StrUpdate: 8, StrCancel: 6, BankSend: 5, WrkReg: 1, EntRaise: 1},
+		MinBlocks: 6, MaxBlocks: 30, MaxTxs: 4, MaxOps: 2, PUpper: 6, PActor: 8, PNamed: 2, PFault: 2, PExec: 6, PGovParams: 8, PBadRef: 4,
+		BigAmounts: true, ValidParams: true, LongTime: true, GovKinds: []string{ParamsStr}}
+}
+
+var cfgC10 = reg(PropCfg{
+	ID: "C10", Profile: streamProfile(),
+	Rule: "history with >=2 streams alive at a block boundary, >=1 release under a non-zero validator fee; distinct by scenario hash",
+	NonTrivial: func(w *World) bool { return w.Classes["c10.multi-stream-state"] > 0 && w.Classes["c10.release-with-fee"] > 0 },
+	MinClasses: map[string]int{"c10.release-with-fee": 20, "c10.escrow-multi-denom": 5},
+	Assume:     []string{"coin movements are attributed per stream from balance deltas around single-operation transactions whose sender, receiver, fee collector and escrow are distinct accounts"},
+})
+
+var cfgC11 = reg(PropCfg{
+	ID: "C11", Profile: streamProfile(),
+	Rule: "history with >=1 release strictly before the deposit-zero time and >=1 settlement by top-up/update/cancel",
+	NonTrivial: func(w *World) bool {
+		return w.Classes["c11.release-before-zero"] > 0 && w.Classes["c11.settle-by-"+StrTopUp]+w.Classes["c11.settle-by-"+StrUpdate]+w.Classes["c11.settle-by-"+StrCancel] > 0
+	},
+	MinClasses: map[string]int{"c11.release-before-zero": 20},
+	Assume:     []string{"block times are multiples of 1 ms (Duration.Seconds() is a float; exact up to 2^43 s at that granularity)", "deposit-zero times beyond year 9999 cannot be represented in a protobuf timestamp; they are not compared"},
+})
+
+var cfgC12 = reg(PropCfg{
+	ID: "C12", Profile: streamProfile(),
+	Rule: "history containing a stream whose lifetime deposits exceed 2^63, or the end-of-history sweep (claim then cancel of every surviving stream)",
+	NonTrivial: func(w *World) bool { return w.Classes["c12.stream-above-2^63"] > 0 || w.Classes["c12.sweep"] > 0 },
+	MinClasses: map[string]int{"c12.sweep": 10},
+	Assume:     []string{"liveness is asserted only for streams the chain accepted, as 'the next claim/cancel/affordable top-up succeeds'"},
+})
+
+func TestC10(t *testing.T) { RunProperty(t, cfgC10) }
+func TestC11(t *testing.T) { RunProperty(t, cfgC11) }
+func TestC12(t *testing.T) { RunProperty(t, cfgC12) }
 func TestC06(t *testing.T) { RunProperty(t, cfgC06) }
 func TestC07(t *testing.T) { RunProperty(t, cfgC07) }
 func TestC08(t *testing.T) { RunProperty(t, cfgC08) }
